@@ -376,6 +376,37 @@ def mixed_construction(chk):
     if vals != [2, 2, 2, 2]:
       chk.violation('lazy:mixed-construction:value', f'[{order}] values {vals}, eager 2', ctx)
   lazy_fns.clear_cache()
+  # a cached call whose argument is a traced unhashable value, sent over twice (two unpickled copies of one expression):
+  # evaluated once, then served from the cache
+  import pickle
+  lazylib.reset()
+  expr = lazy_fns.trace(lazylib.count_len)(lazy_fns.trace([1, 2, 3]), cache_result_=True)
+  blob = lazy_fns.pickler.dumps(expr)
+  try:
+    vals = [lazy_fns.maybe_make(blob) for _ in range(3)]
+    info = lazy_fns.cache_info()
+    chk.replayed()
+    if vals != [3, 3, 3] or lazylib.TICKS[0] != 1 or info.hits < 2:
+      chk.violation('lazy:cached:unhashable-argument:re-evaluated', f'three materialisations of one pickled cached call over a traced list: values {vals}, '
+                    f'the function ran {lazylib.TICKS[0]} times, cache hits {info.hits} misses {info.misses} (memoised: once, 2 hits)',
+                    dict(kind='lazy-unhashable-argument'))
+  except Exception as e:  # pylint: disable=broad-exception-caught
+    chk.violation(f'lazy:cached:unhashable-argument:exception:{type(e).__name__}', repr(e), dict(kind='lazy-unhashable-argument'))
+  lazy_fns.clear_cache()
+  # a literal bytes argument is data, whatever it contains (here: a pickle)
+  payload = pickle.dumps([1, 2, 3])
+  for label, mk in (('positional', lambda: lazy_fns.trace(len)(payload)), ('keyword', lambda: lazy_fns.trace(lazylib.kwlen)(payload=payload)),
+                    ('not-a-pickle', lambda: lazy_fns.trace(len)(b'\x00abc'))):
+    want = 4 if label == 'not-a-pickle' else len(payload)
+    try:
+      got = [lazy_fns.maybe_make(mk()), lazy_fns.maybe_make(lazy_fns.pickler.dumps(mk()))]
+    except Exception as e:  # pylint: disable=broad-exception-caught
+      chk.violation(f'lazy:bytes-argument:exception:{type(e).__name__}', f'[{label}] {e!r}; eager value {want}', dict(kind='lazy-bytes-argument', how=label))
+      continue
+    chk.replayed()
+    if got != [want, want]:
+      chk.violation('lazy:bytes-argument:value', f'[{label}] len of a bytes argument: {got}, eager {want}', dict(kind='lazy-bytes-argument', how=label))
+  lazy_fns.clear_cache()
 
 
 def body(chk):
